@@ -17,6 +17,16 @@
 (*        Lasso, same data and parameters;                                 *)
 (*        q = [S, WA, BA, WB, BB] at several scales.                       *)
 (*                                                                         *)
+(* SCALE FAMILY.  The statement's near-optimality is relative, hence       *)
+(* scale free.  Fields xexp, yexp, aexp say that the library was fed       *)
+(* X 2^xexp, y 2^yexp and alpha 2^aexp, a combination under which the      *)
+(* stated objective is exactly homogeneous (Lasso / l1_ratio = 1: yexp =   *)
+(* aexp; raw elastic net: xexp = yexp, aexp = 2 xexp), and that the        *)
+(* harness has undone these exact power-of-two scalings on the outputs.    *)
+(* The event therefore describes the small-integer problem and is judged   *)
+(* by the very same operators at the usual resolution; a stopping rule     *)
+(* that is secretly absolute shows up on the 2^-10 / 2^-20 members.        *)
+(*                                                                         *)
 (* Verdicts come from the operators of Lasso.tla only.                     *)
 (***************************************************************************)
 EXTENDS Lasso, TLC, Json, IOUtils
@@ -102,12 +112,14 @@ HitOf(e, c) == IF e.ev = "Fit" THEN FitHit(e, c)
                ELSE IF c \in {"OutOfRange", "Skipped"} THEN c ELSE "Pair_" \o e.kind
 
 HitNames == {"Valid_lasso_raw", "Valid_lasso_std", "Valid_enet_raw", "Valid_enet_std", "Invalid",
-             "Pair_shift", "Pair_l1one", "OutOfRange", "Skipped"}
+             "Pair_shift", "Pair_l1one", "OutOfRange", "Skipped",
+             "ScaledDown", "ScaledUp", "Unscaled"}        \* second counter: member of the scale family
+ScaleHit(e) == IF e.yexp < 0 THEN "ScaledDown" ELSE IF e.yexp > 0 THEN "ScaledUp" ELSE "Unscaled"
 
 Judge(e, c) ==
     /\ IF c \in {"", "OutOfRange", "Skipped"} THEN nbad' = nbad
        ELSE PrintT(<<"BAD", l, e.run, e.ev, c>>) /\ nbad' = nbad + 1
-    /\ hits' = [hits EXCEPT ![HitOf(e, c)] = @ + 1]
+    /\ hits' = [hits EXCEPT ![HitOf(e, c)] = @ + 1, ![ScaleHit(e)] = @ + 1]
 
 Step == /\ l <= Len(Rec)
         /\ Judge(Rec[l], Clause(Rec[l]))
